@@ -17,7 +17,7 @@ pub fn deallocate<T>(tofree: *mut T, num: usize) {
     #[cfg(multiqueue2_verif)]
     {
         let bytes = num * mem::size_of::<T>();
-        if crate::verif_hooks::on_dealloc(tofree as usize, bytes) {
+        if crate::verif_hooks::on_dealloc(tofree as usize, bytes, mem::align_of::<T>()) {
             // quarantined by the verification runtime: poison instead of freeing
             unsafe { std::ptr::write_bytes(tofree as *mut u8, 0xfd, bytes) };
             return;
